@@ -26,6 +26,7 @@ type C08Case struct {
 	Silence bool     `json:"silence"`          // the peer falls silent once, long enough to be probed
 	N2      int      `json:"n2"`               // acceptor: after the first horizon the peer logs out and on again with this interval (0: no re-logon)
 	Relogon int      `json:"relogon"`          // index of the second Logon step
+	BadLogouts int   `json:"bad_logouts,omitempty"`
 	RefuseHB int     `json:"refuse_hb,omitempty"` // the application handler refuses the k-th unsolicited Heartbeat (0: none): that one is not transmitted; the timer must try again a period later
 	RemoveAt string  `json:"remove_at,omitempty"` // the application removes its own (accepting, all-types) logging handler right before this send step
 	Refuse  []string `json:"refuse,omitempty"` // application sends that an application outgoing handler (registered before the session's own) refuses: they are not transmitted, so they must not postpone the heartbeat
@@ -126,6 +127,10 @@ func genC08(t *rapid.T) *C08Case {
 			kind = "testreq"
 		case 1:
 			kind = "resend" // retransmissions are outbound messages too: they postpone the heartbeat
+		case 2:
+			if rapid.Bool().Draw(t, "badLogout") {
+				kind = "badlogout" // a Logout that fails the integrity check: rejected, the session stays logged on and keeps its rhythm
+			}
 		}
 		evs = append(evs, ev{at, kind})
 		if kind == "send" && rapid.IntRange(0, 5).Draw(t, "burst") == 0 {
@@ -152,6 +157,10 @@ func genC08(t *rapid.T) *C08Case {
 				c.Refuse = append(c.Refuse, id)
 			}
 			tl.steps = append(tl.steps, rig.Step{Op: "send", ID: id})
+		} else if e.kind == "badlogout" {
+			tl.steps = append(tl.steps, rig.Step{Op: "in", In: damage(t, g.logout())})
+			tl.lastIn = tl.now
+			c.BadLogouts++
 		} else if e.kind == "resend" {
 			tl.steps = append(tl.steps, rig.Step{Op: "in", In: g.resend(1, rapid.SampledFrom([]int{0, 1, 2}).Draw(t, "resendEnd"))})
 			tl.lastIn = tl.now
@@ -334,6 +343,9 @@ func checkC08(c *C08Case, rec *evid.Rec) (vs []pbt.Violation) {
 	}
 	if len(refusedAt) > 0 {
 		rec.Hist("refused-heartbeat")
+	}
+	if c.BadLogouts > 0 {
+		rec.Hist("damaged-logout-in-between")
 	}
 	if c.RemoveAt != "" {
 		rec.Hist("application-removes-a-handler")
